@@ -3,6 +3,7 @@
 // every history is replayed on a fresh model and the invariants of the statement are
 // evaluated after its last operation.  See DESIGN.md "C10".
 #include "meshkit.hpp"
+#include "partrows.hpp"
 
 using namespace nifly;
 using namespace mk;
@@ -172,6 +173,9 @@ struct Model {
 	bool gsp_ok = false;
 	NiVector<BSDismemberSkinInstance::PartitionInfo> gsp_info;
 	std::vector<int> gsp_parts;
+	// body part (dismember partID) of every triangle just before the last UpdateSkinPartitions
+	bool bp_valid = false;
+	std::map<uint64_t, int> bp_before;
 };
 
 static bool build_model(const Config& c, Model& m, std::string& err) {
@@ -283,6 +287,21 @@ static bool cover_holds(Model& m) {
 	return true;
 }
 
+// body part of every triangle, through the partition it lies in; false when the dismember list is not aligned with the
+// partitions or a triangle lies in two partitions (then "the body part of a triangle" is not defined)
+static bool body_parts(Model& m, std::map<uint64_t, int>& out) {
+	out.clear();
+	SkinBlocks sk = skin_blocks(*m.nif, m.shape);
+	if (!sk.part || !sk.bsd || sk.bsd->partitions.size() != sk.part->partitions.size()) return false;
+	for (size_t pi = 0; pi < sk.part->partitions.size(); pi++) {
+		bool bad = false;
+		for (auto& t : eff_true_tris(*sk.part, sk.part->partitions[pi], &bad))
+			if (!out.emplace(tri_key(t), (int) sk.bsd->partitions[pi].partID).second) return false;
+		if (bad) return false;
+	}
+	return true;
+}
+
 // cover_before: the cover invariant held before the last operation.  SetShapePartitions,
 // UpdateSkinPartitions and SetDefaultPartition must establish it; the other operations must keep it.
 static void check_state(Model& m, const Op& last, Ctx& cx, bool cover_before) {
@@ -345,7 +364,28 @@ static void check_state(Model& m, const Op& last, Ctx& cx, bool cover_before) {
 			if (m.gsp_info.size() < sp.partitions.size()) cx.V("getshapepartitions-info", vf::strf("%u PartitionInfo entries for %zu partitions", (unsigned) m.gsp_info.size(), sp.partitions.size()));
 		}
 	}
+	if (last.k == O_USP && m.bp_valid) {
+		// a rebuild may split partitions, it never moves a triangle to another body part: entry i of the dismember
+		// list must still describe partition i
+		std::map<uint64_t, int> now;
+		if (body_parts(m, now))
+			for (auto& kv : m.bp_before) {
+				auto it = now.find(kv.first);
+				if (it != now.end() && it->second != kv.second) {
+					cx.V("dismember-bodypart-changed" + after, vf::strf("a triangle of body part %d lies in a partition labelled %d after the rebuild", kv.second, it->second));
+					break;
+				}
+			}
+		if (cx.st) cx.st->add("bodypart_maps_compared");
+	}
 	if (last.k != O_USP && last.k != O_SL) return;
+
+	if (last.k == O_USP && sk.data) {
+		// the rebuild derives every row from NiSkinData
+		partrows::Result pr = partrows::check(*sk.data, sp, 1e-4f);
+		if (cx.st) { cx.st->add("partition_rows_compared_with_skindata", pr.rows_compared); cx.st->add("partition_rows_not_comparable", pr.rows_skipped); }
+		if (!pr.msg.empty()) cx.V("partition-row-differs-from-skindata" + after, pr.msg);
+	}
 
 	// prepared facts
 	const uint16_t limit = bone_limit(c.game);
@@ -449,6 +489,7 @@ static int visit_node(Search& S, const Hist& h, bool replay_all = false) {
 	for (size_t i = 0; i < h.size(); i++) {
 		bool lastop = i + 1 == h.size();
 		if (lastop || replay_all) cover_before = cover_holds(m) || m.orphaned;
+		m.bp_valid = (lastop || replay_all) && h[i].k == O_USP && body_parts(m, m.bp_before);
 		if (!apply_op(m, h[i], cx)) return -1;
 		if (replay_all && !lastop) check_state(m, h[i], cx, cover_before);
 	}
